@@ -15,7 +15,7 @@ def run(r):
     behs, nn, ne, nc = tlc.graph_cover(g.dot, rng=random.Random(r.seed))
     r.extra['graph_cover'] = {'nodes': nn, 'edges': ne, 'edges_replayed': nc, 'behaviours': len(behs)}
     r.replay(None, behs, 'EventTree', 'graph', parallel=16, factory=EventDriver)
-    for op in ('NewEvent', 'AddChildren', 'AddToForeign', 'Shower'):
+    for op in ('NewEvent', 'AddChildren', 'AddToForeign', 'Shower', 'Sigma'):
         if not r.actions_seen.get(op):
             raise tlc.TLCError('vacuity guard: op %s never replayed' % op)
     r.assumptions += ['distributions of interaction type / inelasticity, cross sections and interaction lengths are numerical: not decided',
